@@ -111,20 +111,37 @@ class FamilySpec(NatSpec):
     def arraynd(self, name, kind, shape):
         shape = tuple(int(s) for s in shape)
         size = int(np.prod(shape)) if shape else 1
+        pat = 0
         if kind == "b":
             c = self._choose(2 ** min(size, 12))
             vals = [(c >> t) & 1 == 1 for t in range(size)]
         else:
             # data: pairwise distinct values (any mix-up of cells is visible), optionally one NaN
-            pat = self._choose(2 if kind == "f" and size else 1)
+            # float data: pairwise distinct values with a NaN pattern -- none / first cell / last cell / the whole first slice
+            # along the first dimension / the whole first slice along the last dimension / everything
+            npat = 6 if kind == "f" and size else 1
+            pat = self._choose(npat)
             vals = [10.0 * (t + 1) + 0.25 for t in range(size)] if kind == "f" else [7 * (t + 1) for t in range(size)]
+            nan = float("nan")
             if pat == 1:
-                vals[0] = float("nan")
+                vals[0] = nan
+            elif pat == 2:
+                vals[-1] = nan
+            elif pat == 3 and shape:
+                inner = size // shape[0] if shape[0] else 0
+                for t in range(inner):
+                    vals[t] = nan
+            elif pat == 4 and shape:
+                last = shape[-1]
+                for t in range(0, size, last if last else 1):
+                    vals[t] = nan
+            elif pat == 5:
+                vals = [nan] * size
         dt = {"f": float, "i": int, "I": int, "b": bool, "O": object}[kind]
         arr = np.array(vals, dtype=dt).reshape(shape) if shape else np.array(vals[0], dtype=dt)
         self.export[name] = {"type": "arraynd", "kind": "i" if kind == "I" else kind, "shape": list(shape),
                              "values": [None if (isinstance(v, float) and v != v) else v for v in vals] if shape else vals[0],
-                             "nan_at_first": bool(kind == "f" and size and pat == 1)}
+                             "nan_pattern": int(pat)}
         return arr
 
     def fresh_int(self, name):
